@@ -207,6 +207,7 @@ func runC09(c *Ctx) {
 	// a recovered panic would turn an aborted generation into status zero
 	checkExitCodes(c, p, "R09.6")
 	checkPackagePath(c, p, "R09.7")
+	checkEmovesTerminates(c, p, "R09.8")
 	c.Assumptions = append(c.Assumptions, "the -p package path is a valid import path; the file header and the action expressions are valid Go (the property's premise)",
 		"NOT decided: termination of gocc for every input (Emoves, Closure, GetItemSets are worklist loops over unbounded grammars)",
 		"go/format either fails or returns an equivalent program")
